@@ -58,6 +58,9 @@ v_list: list[int] = []
 v_set: set[int] = set()
 v_frozenset: frozenset[int] = frozenset()
 v_dict: dict[str, int] = {}
+v_lstr: list[str] = []
+v_dint: dict[int, int] = {}
+v_sstr: set[str] = set()
 v_tuple2: tuple[int, str] = (1, "")
 v_tuplen: tuple[int, ...] = ()
 v_path: pathlib.Path = pathlib.Path()
@@ -223,6 +226,10 @@ OPERANDS = [
     "v_int + 1", "v_int / 2", "v_str + ''", "-v_int", "not v_int", "v_int < 2", "v_int and v_str", "v_int or 0", "v_list[0]", "v_list[:]", "v_dict['k']", "v_tuple2[0]",
     "v_tuple2[1]", "v_str[0]", "v_int if v_bool else v_str", "v_int if v_bool else 2", "(w := v_int)", "cast(int, v_any)", "cast(str, v_int)", "v_list + v_list", "v_int ** 2",
     "v_int ** -1", "v_list * 2", "[i for i in v_list]", "v_str % 3", "f'{v_int}'",
+    # two branches / two operands of the same class that differ in their type arguments, or of related classes (mypy: a union or a join)
+    "v_list if v_bool else v_lstr", "v_lstr if v_bool else v_list", "v_list if v_bool else v_list", "v_dict if v_bool else v_dint", "v_set if v_bool else v_sstr",
+    "v_list or v_lstr", "v_list and v_lstr", "v_lstr or v_list", "v_int if v_bool else v_bool", "v_mylist if v_bool else v_list", "v_list if v_bool else v_mylist",
+    "v_opt if v_bool else v_int", "v_str if v_bool else v_mystr", "v_tuple2 if v_bool else v_tuplen", "v_list if v_bool else f_any()", "v_dict or v_dint",
 ]
 
 CONTEXTS = [
